@@ -1118,9 +1118,13 @@ class FuncEmitter:
             base = e["inner"][0]
             mname = e["name"]
             # static data member accessed through object?
+            fd = self.ast.byid.get(e.get("referencedMemberDecl")) or {}
+            isref = fd.get("type", {}).get("qualType", "").rstrip().endswith("&")   # reference member: stored as a pointer
             if e.get("isArrow"):
-                return "%s->%s" % (self.rv_ptr(base), mname)
-            return "%s.%s" % (self.lv_or_rv_record(base), mname)
+                r = "%s->%s" % (self.rv_ptr(base), mname)
+            else:
+                r = "%s.%s" % (self.lv_or_rv_record(base), mname)
+            return "(*%s)" % r if isref else r
         if k == "CXXThisExpr":
             self.fail("this as lvalue")
         if k == "UnaryOperator":
